@@ -5,7 +5,7 @@
    introduction list is the set of addresses introduced by that key; no verified peer is
    blacklisted.  Nothing is required of the address cache: its hits are validated when used. *)
 From Coq Require Import ZArith List Bool Lia Arith.
-From IPV8V Require Import lib.PyErr lib.Bytes model.M12_network proofs.P12_base.
+From IPV8V Require Import lib.PyErr lib.Bytes model.M02_wire model.M12_network proofs.P12_base.
 Import ListNotations.
 Open Scope Z_scope.
 
@@ -600,13 +600,14 @@ Proof.
 Qed.
 
 (* ------------------------------------------------------------------ load_snapshot *)
-Lemma load_loop_good fuel : forall d all ic,
+Lemma load_loop_good fuel : forall d off all ic,
   (forall k l, In (k, l) ic -> intro_good all k l) ->
-  forall k l, In (k, l) (snd (fst (load_loop fuel d all ic))) ->
-              intro_good (fst (fst (load_loop fuel d all ic))) k l.
+  forall k l, In (k, l) (snd (fst (load_loop fuel d off all ic))) ->
+              intro_good (fst (fst (load_loop fuel d off all ic))) k l.
 Proof.
-  induction fuel as [|f IH]; intros d all ic Hg; destruct d as [|b d]; cbn [load_loop fst snd]; try assumption.
-  destruct (unpack_addr (b :: d)) as [[a used]|]; cbn [fst snd]; [|assumption].
+  induction fuel as [|f IH]; intros d off all ic Hg; cbn [load_loop];
+    destruct (off <? length d)%nat; cbn [fst snd]; try assumption.
+  destruct (unpack_address d off) as [[a o]|e]; cbn [fst snd]; [|assumption].
   apply IH. intros k l Hin. apply intro_good_forget_set with (ic := ic); [assumption|assumption|].
   cbn. discriminate.
 Qed.
@@ -614,8 +615,8 @@ Qed.
 Lemma Inv_load_snapshot n d : Inv n -> Inv (load_snapshot n d).
 Proof.
   intros H. unfold load_snapshot.
-  pose proof (load_loop_good (length d) d (all_addrs n) (intro_cache n) (inv_intro n H)) as G.
-  destruct (load_loop (length d) d (all_addrs n) (intro_cache n)) as [[all ic] flag]. cbn [fst snd] in G.
+  pose proof (load_loop_good (length d) d 0%nat (all_addrs n) (intro_cache n) (inv_intro n H)) as G.
+  destruct (load_loop (length d) d 0 (all_addrs n) (intro_cache n)) as [[all ic] flag]. cbn [fst snd] in G.
   apply Inv_set_intro_all; assumption.
 Qed.
 
